@@ -16,7 +16,7 @@ func init() {
 		ID: "C20",
 		Explanation: "Decided: (R1) the scheduler-cleanup step is in the kill chain, runs on termination and on restart, and Clear deletes every recorded job; (R2) the job key is own path + ':' + reference at schedule, the recorded key is the one scheduled, Cancel deletes the key recorded for that reference; the key table is touched only by the actor scheduler's own methods; " +
 			"(R3) a cron parse error returns the converted error and schedules nothing; Cancel of an unknown reference returns not-found without touching the job scheduler; (R4) the job function tells a SchedulerMessage carrying the caller's message through Tell/TellSelf (the mailbox) and the receiver runs its behaviour on exactly that message; " +
-			"(R2, addition) an entry is removed from the reference→key table only together with the engine's deletion of a key taken from that table, or under an equality test of the entry recorded under the same reference — never keyed by the reference alone at some later time (a re-armed reference would lose its bookkeeping: Cancel not-found for a live job, the job outlives its actor); (R5) an error from the underlying Schedule reaches the caller and the key is recorded only on success. (R6) the shared engine is constructed with neither blocking execution nor a worker limit: a job function that blocks (a Tell to an unreachable peer, C14.R1) delays no other actor's job. (R7) the context the shared engine is started with is not the first result of a context.With* call whose cancel function the module calls and then waits (the stop routine cancels the system's derived context right after sending the graceful kill and then waits for the tree): actors the poison has not reached yet are still running and their jobs must keep firing. NOT decided: 'not before the delay', counts per interval, cancellation racing the firing instant (go-quartz internals + wall clock).",
+			"(R2, addition) an entry is removed from the reference→key table only together with the engine's deletion of a key taken from that table, or under an equality test of the entry recorded under the same reference — never keyed by the reference alone at some later time (a re-armed reference would lose its bookkeeping: Cancel not-found for a live job, the job outlives its actor); (R4, addition) no branch of the job callback is taken on equal paths alone: the owner's self-delivery shortcut tests the whole reference; (R5) an error from the underlying Schedule reaches the caller and the key is recorded only on success. (R6) the shared engine is constructed with neither blocking execution nor a worker limit: a job function that blocks (a Tell to an unreachable peer, C14.R1) delays no other actor's job. (R7) the context the shared engine is started with is not the first result of a context.With* call whose cancel function the module calls and then waits (the stop routine cancels the system's derived context right after sending the graceful kill and then waits for the tree): actors the poison has not reached yet are still running and their jobs must keep firing. NOT decided: 'not before the delay', counts per interval, cancellation racing the firing instant (go-quartz internals + wall clock).",
 		Assumptions: []string{"go-quartz: ScheduleJob/DeleteJob are non-blocking and fallible; a deleted job does not fire (summary, not analysed)"},
 		Rules: []Rule{
 			{ID: "C20.R1", Min: 3, Desc: "jobs die with the actor", Fn: c20Die},
@@ -591,6 +591,32 @@ func c20Delivery(p *Program, r *Report) {
 	if s == nil || lc == nil {
 		return
 	}
+	// the callback may short-cut a delivery to the owner itself — but "itself" is a reference test (address AND path): a branch of
+	// the callback taken on equal PATHS alone sends a job addressed to the same-named actor on another node into the owner's own
+	// mailbox at every firing (symmetric deployments run the same named service on every node).
+	tg := p.ig(s.TellFn)
+	func() {
+		defer p.withGraph(tg)()
+		pathOnly := ownPathEdges(p, tg)
+		addr := map[edge]bool{}
+		for _, ifi := range tg.ifs() {
+			for _, oc := range []bool{true, false} {
+				f, ok := condFact(ifi.Cond, oc)
+				if ok && f.Y != nil && f.Op == token.EQL && p.viaRefAccessor(lc, f.X, "GetAddress") && p.viaRefAccessor(lc, f.Y, "GetAddress") {
+					addr[tg.branchEdge(ifi, oc)] = true
+				}
+			}
+		}
+		okP := true
+		var posP = s.TellFn.Pos()
+		for e := range pathOnly {
+			if len(addr) == 0 || !tg.DominatedByEdges(e.from, addr) {
+				okP = false
+				posP = tg.Nodes[e.from].Pos()
+			}
+		}
+		r.Check(okP, "the job callback tests \"the receiver is the owner\" on the whole reference", posP, "no branch of the delivery callback is taken on equal paths alone (a path comparison is dominated by an address comparison, or the test is Equals): a job for the same-named actor on another node is not delivered to the owner")
+	}()
 	// job closure calls the callback with the schedule helper's receiver/message params
 	okJ := false
 	sg := p.igx(s.Schedule)
